@@ -102,6 +102,42 @@ def effective_cases(g):
     return out
 
 
+def delay_schedule(case):
+    """per step the delay matrix (steps) in force: the initial delays, re-assigned by the delay events"""
+    cur, out = case.get("delays"), []
+    evs = case.get("events") or []
+    for t in range(len(case["pre"])):
+        for ev in evs:
+            if ev["at"] == t and ev["op"] in ("delay_set", "delay_upd"):
+                cur = ev["delays"]
+        out.append(cur)
+    return out
+
+
+def biclique_connections(g):
+    """a Biclique case -> per connection the single-layer case judged: the connection's data plus, for every neuron
+    group, the hyperparameters in effect for that cell and that group's post train"""
+    d = g["defaults"]
+    out = []
+    for i, cs in enumerate(g["conns"]):
+        cells = []
+        for cc in g["cells"]:
+            if cc["bic"][0] != i:
+                continue
+            ov = cc.get("override", {})
+            e = {"trainer": g["trainer"], "dt": g["dt"], "B": g["B"], "conn": "dense", "n_in": cs["n_in"], "n_out": g["n_out"],
+                 "kmax": cs.get("kmax"), "delays": cs.get("delays"), "pre": cs["pre"], "post": g["posts"][cc["bic"][1]],
+                 "hp": dict(d["hp"], **ov.get("hp", {})), "signal": g.get("signal"), "scale": g.get("scale", 1.0),
+                 "neuron": cc["bic"][1], "override": ov}
+            for key in ("mode", "delayed", "reduction", "tol"):
+                e[key] = ov[key] if key in ov else d.get(key, 0.0 if key == "tol" else None)
+            cells.append(e)
+        c0 = dict(cells[0])
+        c0.update(connection=i, cells_in_effect=cells)
+        out.append(c0)
+    return out
+
+
 def column(arr, j):
     """[T][B][n] -> [T][B] for element j"""
     return [[sb[j] for sb in st] for st in arr]
@@ -113,11 +149,22 @@ def entries(case, impl=None):
     connections, one per output position for a convolution kernel element)"""
     n_in, n_out, d = case.get("n_in"), case.get("n_out"), case.get("delays")
     out = []
-    if case["conn"] == "dense":
+    if case.get("cells_in_effect") is not None:
+        # one connection of a Biclique layer: every cell on it (one per neuron group) writes into the same weight
         for o in range(n_out):
             for i in range(n_in):
-                out.append({"label": [o, i], "idx": o * n_in + i, **kd(case, d[o][i] if d is not None else 0),
-                            "pairs": [(column(case["pre"], i), column(case["post"], o))]})
+                subs = [(e, {**kd(e, d[o][i] if d is not None else 0),
+                             "pairs": [(column(case["pre"], i), column(e["post"], o))]}) for e in case["cells_in_effect"]]
+                out.append({"label": [o, i], "idx": o * n_in + i, "k": subs[0][1]["k"], "subs": subs})
+    elif case["conn"] == "dense":
+        sched = delay_schedule(case)
+        for o in range(n_out):
+            for i in range(n_in):
+                e = {"label": [o, i], "idx": o * n_in + i, **kd(case, d[o][i] if d is not None else 0),
+                     "pairs": [(column(case["pre"], i), column(case["post"], o))]}
+                if case.get("events") is not None:
+                    e["ks"] = [int(m[o][i]) if m is not None else 0 for m in sched]
+                out.append(e)
     elif case["conn"] == "direct":
         for i in range(n_in):
             out.append({"label": [i, i], "idx": i, **kd(case, d[i] if d is not None else 0),
@@ -309,6 +356,140 @@ def gen_group(rng: random.Random):
     return g
 
 
+OVERRIDE_KEYS = {
+    "STDP": ["lr_post", "lr_pre", "tc_post", "tc_pre", "delayed", "tol", "mode", "reduction"],
+    "StableSTDP": ["lr_post", "lr_pre", "tc_post", "tc_pre", "delayed", "tol", "mode", "reduction"],
+    "MSTDP": ["lr_post", "lr_pre", "tc_post", "tc_pre", "delayed", "tol", "mode", "reduction"],
+    "MSTDPET": ["lr_post", "lr_pre", "tc_post", "tc_pre", "tc_elig", "tol", "mode", "reduction"],
+    "TripletSTDP": ["lr_post", "lr_pre", "lr_post_triplet", "lr_pre_triplet", "tc_post", "tc_pre", "tc_post_slow",
+                    "tc_pre_slow", "delayed", "tol", "mode", "reduction", "inplace"],
+    "StableTripletSTDP": ["lr_post", "lr_pre", "lr_post_triplet", "lr_pre_triplet", "tc_post", "tc_pre", "tc_post_slow",
+                          "tc_pre_slow", "delayed", "tol", "mode", "reduction", "inplace"],
+}
+
+
+def change_key(rng, ov, key, defaults, dt):
+    """override `key` with a value different from the one in effect (ov = override dict being built on `defaults`)"""
+    cur = dict(defaults["hp"], **ov.get("hp", {}))
+    hp = ov.setdefault("hp", {})
+    if key in ("lr_post", "lr_pre"):
+        hp[key] = -cur[key] if rng.random() < 0.6 else cur[key] * rng.choice([0.5, 1.7])
+    elif key in ("lr_post_triplet", "lr_pre_triplet"):
+        hp[key] = cur[key] * rng.choice([0.5, 2.0, -1.5])
+    elif key in ("tc_post", "tc_pre"):
+        hp[key] = cur[key] * rng.choice([0.6, 0.8])
+    elif key in ("tc_post_slow", "tc_pre_slow"):
+        hp[key] = cur[key] * rng.choice([1.3, 1.9])
+    elif key == "tc_elig":
+        hp[key] = cur[key] * rng.choice([0.5, 1.6])
+    elif key == "delayed":
+        ov["delayed"] = not ov.get("delayed", defaults["delayed"])
+    elif key == "mode":
+        ov["mode"] = [m for m in MODES if m != ov.get("mode", defaults["mode"])][0]
+    elif key == "reduction":
+        cur_r = ov.get("reduction", defaults["reduction"])
+        ov["reduction"] = rng.choice([r for r in ("sum", "mean", "amax") if r != cur_r])
+    elif key == "tol":
+        ov["tol"] = rng.choice([0.3, 0.6]) * dt if not ov.get("tol", defaults.get("tol", 0.0)) else 0.0
+    elif key == "inplace":
+        ov["inplace"] = not ov.get("inplace", False)
+    if not hp:
+        ov.pop("hp")
+
+
+def gen_biclique(rng: random.Random, q: int):
+    """ONE trainer object on ONE Biclique layer (2 dense connections x 2 neuron groups), all four cells registered.  Cells
+    (0,j) and (1,j) share neuron group j and differ in exactly ONE hyperparameter k1; cells (i,0) and (i,1) share
+    connection i - its synapse AND its accumulator - and differ in exactly one hyperparameter k2; k1, k2 rotate with q over
+    every register_cell keyword, so that every monitor of such a pair is poolable except the ones the differing
+    hyperparameter enters."""
+    import copy
+    tr = TRAINERS[q % len(TRAINERS)]
+    sp, sq = rng.choice(SIGNS)
+    dt = rng.choice([1.0, 0.5, 1.3])
+    B, T, n_out = rng.randint(1, 2), rng.randint(3, 6), rng.randint(1, 2)
+    defaults = {"hp": default_hp(sp, sq, rng), "mode": rng.choice(MODES), "delayed": rng.random() < 0.5,
+                "reduction": rng.choice(["sum", "mean"]), "tol": 0.0}
+    sig = mk_signal(rng, {"trainer": tr}, T, B)
+    persample = sig is not None and isinstance(sig[0], list)
+    if persample:
+        defaults["reduction"] = "sum"
+    keys = [k for k in OVERRIDE_KEYS[tr] if not (persample and k == "reduction")]
+    r = q // len(TRAINERS)
+    k1, k2 = keys[r % len(keys)], keys[(r + 3) % len(keys)]
+    p = rng.choice([0.4, 0.7])
+    conns = []
+    for i in range(2):
+        n_in = rng.randint(1, 2)
+        kmax = rng.choice([None, 1, 2])
+        offg = kmax is not None and rng.random() < 0.3
+        conns.append({"n_in": n_in, "kmax": kmax,
+                      "delays": None if kmax is None else [[(rng.randint(1, kmax) - rng.choice([0.25, 0.5])) if (offg and rng.random() < 0.5)
+                                                            else rng.randint(0, kmax) for _ in range(n_in)] for _ in range(n_out)],
+                      "pre": [[[int(rng.random() < p) for _ in range(n_in)] for _ in range(B)] for _ in range(T)]})
+    posts = [[[[int(rng.random() < p) for _ in range(n_out)] for _ in range(B)] for _ in range(T)] for _ in range(2)]
+    base = {}
+    for k in keys:
+        if k not in (k1, k2) and rng.random() < 0.25:
+            change_key(rng, base, k, defaults, dt)
+    grid = {(0, 0): base}
+    grid[(1, 0)] = copy.deepcopy(base)
+    change_key(rng, grid[(1, 0)], k1, defaults, dt)
+    grid[(0, 1)] = copy.deepcopy(base)
+    change_key(rng, grid[(0, 1)], k2, defaults, dt)
+    grid[(1, 1)] = copy.deepcopy(grid[(1, 0)])
+    change_key(rng, grid[(1, 1)], k2, defaults, dt)
+    cells = [{"bic": [i, j], "override": grid[(i, j)]} for (i, j) in ((0, 0), (0, 1), (1, 0), (1, 1))]
+    return {"kind": "biclique", "trainer": tr, "defaults": defaults, "dt": dt, "B": B, "n_out": n_out, "conns": conns,
+            "posts": posts, "cells": cells, "signal": sig, "scale": rng.choice([1.0, 0.5, -2.0]) if sig is not None else 1.0,
+            "differs": {"sharing_neuron": k1, "sharing_connection": k2}}
+
+
+def gen_scenario(rng: random.Random, q: int):
+    """a single dense cell trained with operations between steps (update applied after every trainer call): a
+    checkpoint restored into a twin that ran on other data, trainer.clear() + layer.clear(), delays re-assigned through
+    the setter / through the Updater (on the step grid)"""
+    tr = TRAINERS[q % len(TRAINERS)]
+    sp, sq = rng.choice(SIGNS)
+    kind = ["restore", "clear", "delay_set", "delay_upd", "mixed"][(q // len(TRAINERS)) % 5]
+    n_in, n_out, B, T = rng.randint(1, 2), rng.randint(1, 2), rng.randint(1, 2), rng.randint(4, 8)
+    wants_delay = kind in ("delay_set", "delay_upd", "mixed")
+    kmax = rng.choice([2, 3]) if wants_delay else rng.choice([None, None, 1, 2])
+    dt = rng.choice([1.0, 0.5]) if wants_delay else rng.choice([1.0, 0.5, 1.3])     # k * dt exact under the Updater's old + (new - old)
+
+    def dmat():
+        return [[rng.randint(0, kmax) for _ in range(n_in)] for _ in range(n_out)]
+    case = {"trainer": tr, "mode": rng.choice(MODES), "hp": default_hp(sp, sq, rng), "dt": dt, "conn": "dense",
+            "n_in": n_in, "n_out": n_out, "B": B, "kmax": kmax, "delays": None if kmax is None else dmat(),
+            "delayed": (rng.random() < 0.75) if wants_delay else (rng.random() < 0.5),
+            "reduction": rng.choice([None, "sum", "mean"]), "events": []}
+    p = rng.choice([0.4, 0.7])
+    case["pre"] = [[[int(rng.random() < p) for _ in range(n_in)] for _ in range(B)] for _ in range(T)]
+    case["post"] = [[[int(rng.random() < p) for _ in range(n_out)] for _ in range(B)] for _ in range(T)]
+    case["signal"] = mk_signal(rng, case, T, B)
+    case["scale"] = rng.choice([1.0, 0.5]) if case["signal"] is not None else 1.0
+    if case["signal"] is not None and isinstance(case["signal"][0], list):
+        case["reduction"] = rng.choice([None, "sum"])
+
+    def restore_ev(at):
+        J = rng.randint(1, 3)
+        return {"at": at, "op": "restore",
+                "junk_pre": [[[int(rng.random() < 0.7) for _ in range(n_in)] for _ in range(B)] for _ in range(J)],
+                "junk_post": [[[int(rng.random() < 0.7) for _ in range(n_out)] for _ in range(B)] for _ in range(J)]}
+    ops = {"restore": ["restore"], "clear": ["clear"], "delay_set": ["delay_set"], "delay_upd": ["delay_upd"],
+           "mixed": ["delay_set", "restore", "delay_upd", "clear"]}[kind]
+    ats = sorted(rng.sample(range(1, T), min(len(ops) if kind == "mixed" else rng.randint(1, 2), T - 1)))
+    for at, op in zip(ats, ops if kind == "mixed" else ops * len(ats)):
+        if op == "restore":
+            case["events"].append(restore_ev(at))
+        elif op == "clear":
+            case["events"].append({"at": at, "op": "clear"})
+        else:
+            case["events"].append({"at": at, "op": op, "delays": dmat()})
+    case["scenario"] = kind
+    return case
+
+
 def gen_conv(rng: random.Random):
     """a small convolutional cell (weights shared over the output positions); linear batch reductions only, because the
     per-synapse model terms are added up over the positions before the comparison"""
@@ -391,12 +572,17 @@ def q_signal(case, t):
     return f"(SigScalar FN {q_float(s)} {q_float(case.get('scale', 1.0))})"
 
 
-def q_case(case, k, pre, post, off=None):
+def q_case(case, k, pre, post, off=None, t0=0, ks=None):
+    """pre/post: [T][B] bits of the run (a segment starting at global step t0: the signal is read at t0 + t);
+    ks: per-step delays (steps) when the delays are re-assigned between steps"""
     T, B = len(pre), case["B"]
     steps = []
     for t in range(T):
         pq = F.coq_list([f"({F.coq_bool(pre[t][b])}, {F.coq_bool(post[t][b])})" for b in range(B)])
-        steps.append(f"({pq}, {q_signal(case, t)})")
+        st = f"({pq}, {q_signal(case, t0 + t)})"
+        steps.append(st if ks is None else f"({ks[t]}%nat, {st})")
+    if ks is not None:
+        return f"run_case_k {q_config(case, off)} {B}%nat {F.coq_list(steps)}"
     return f"run_case {q_config(case, off)} {k}%nat {B}%nat {F.coq_list(steps)}"
 
 
@@ -440,30 +626,70 @@ def pair_terms(case, k, pre, post):
     return A, D
 
 
-def oracle_entry(case, ent):
-    """expected total weight change of a weight entry, or None when the oracle has no opinion"""
-    hp, dt, T, B = case["hp"], case["dt"], len(case["pre"]), case["B"]
+def delay_selected_by_trainer(case):
+    """the trainer itself reads its (raw) presynaptic records at the delay: `delayed` on a connection with non-zero delays"""
+    return bool(case["delayed"]) and case["trainer"] != "MSTDPET" and case.get("kmax") not in (None, 0)
+
+
+def pair_terms_var(case, ks, pre, post):
+    """pair_terms when the delay changes between steps (ks[t] = delay in force at step t), "presynaptic spike times
+    shifted by the delay in force":
+      delay-frozen mode: the spike arriving at step t is the one emitted at t - ks[t]; the arrivals are the presynaptic
+        events of the pair sums;
+      delayed mode: at step t the synapse has seen the raw presynaptic history up to s = t - ks[t]: a post spike at t
+        pairs with the raw spikes u <= s with weight exp(-(s - u) dt / tau_pre), and a presynaptic spike emitted at s
+        (arriving now) pairs with the post spikes up to t"""
+    hp, dt, T = case["hp"], case["dt"], len(pre)
+    if not delay_selected_by_trainer(case):
+        eff = [int(t - ks[t] >= 0 and pre[t - ks[t]]) for t in range(T)]
+        return pair_terms(case, 0, eff, post)
+    nearest = case["mode"] == "nearest"
+    raw = [u for u in range(T) if pre[u]]
+    post_t = [tp for tp in range(T) if post[tp]]
+
+    def partner_sum(times, upto, tau):
+        ts = [x for x in times if x <= upto]
+        if not ts:
+            return 0.0
+        if nearest:
+            ts = [max(ts)]
+        return sum(math.exp(-((upto - x) * dt) / tau) for x in ts)
+
+    A, D = [], []
+    for t in range(T):
+        sarr = t - ks[t]
+        a = partner_sum(raw, sarr, hp["tc_pre"]) if post[t] else 0.0
+        d = partner_sum(post_t, t, hp["tc_post"]) if (sarr >= 0 and pre[sarr]) else 0.0
+        if case["trainer"] in TRIPLET:
+            a *= (1.0 + abs(hp["lr_post_triplet"]) / abs(hp["lr_post"]) * partner_sum(post_t, t - 1, hp["tc_post_slow"]))
+            d *= (1.0 + abs(hp["lr_pre_triplet"]) / abs(hp["lr_pre"]) * partner_sum(raw, sarr - 1, hp["tc_pre_slow"]))
+        A.append(a)
+        D.append(d)
+    return A, D
+
+
+def oracle_seg(case, k, ks, pairs, a, b):
+    """expected weight change contributed by the steps a .. b-1 of a run that starts afresh at step a (pairs: the
+    (pre, post) trains [T][B] of the synapses sharing the weight), or None when the oracle has no opinion"""
+    hp, dt, B = case["hp"], case["dt"], case["B"]
+    T = b - a
     red = eff_reduction(case)
     rf = red_fn(red)
-    k = ent["k"]
-    if ent.get("off") is not None:
-        # a delay between two steps: the delay-frozen mode rounds the arrival up to the next step, the delayed mode reads
-        # an exponentially interpolated trace; the property's "shifted by the delay" does not say which - not judged
-        return None
     AD = []
-    for b in range(B):
+    for bb in range(B):
         A, D = [0.0] * T, [0.0] * T
-        for (pre, post) in ent["pairs"]:          # synapses sharing the weight add up (before the batch reduction)
-            a, d = pair_terms(case, k, [st[b] for st in pre], [st[b] for st in post])
-            A = [x + y for x, y in zip(A, a)]
-            D = [x + y for x, y in zip(D, d)]
+        for (pre, post) in pairs:          # synapses sharing the weight add up (before the batch reduction)
+            prb, pob = [st[bb] for st in pre[a:b]], [st[bb] for st in post[a:b]]
+            x, y = pair_terms(case, k, prb, pob) if ks is None else pair_terms_var(case, ks[a:b], prb, pob)
+            A = [u + v for u, v in zip(A, x)]
+            D = [u + v for u, v in zip(D, y)]
         AD.append((A, D))
     sig, scale = case.get("signal"), abs(case.get("scale", 1.0))
     if case["trainer"] == "MSTDPET":
         # eligibility filter z(t) = z(t-dt) exp(-dt/tau_z) + c(t)/tau_z applied to each contribution stream
         dz = math.exp(-dt / hp["tc_elig"])
-        for b in range(B):
-            A, D = AD[b]
+        for bb in range(B):
+            A, D = AD[bb]
             za = zd = 0.0
             for t in range(T):
                 za = za * dz + A[t] / hp["tc_elig"]
@@ -471,16 +697,46 @@ def oracle_entry(case, ent):
                 A[t], D[t] = za, zd
     total = 0.0
     for t in range(T):
-        As = [AD[b][0][t] for b in range(B)]
-        Ds = [AD[b][1][t] for b in range(B)]
-        if sig is None:
+        As = [AD[bb][0][t] for bb in range(B)]
+        Ds = [AD[bb][1][t] for bb in range(B)]
+        st = None if sig is None else sig[a + t]
+        if st is None:
             total += hp["lr_post"] * rf(As) + hp["lr_pre"] * rf(Ds)
-        elif not isinstance(sig[t], list):
-            total += sig[t] * scale * (hp["lr_post"] * rf(As) + hp["lr_pre"] * rf(Ds))
+        elif not isinstance(st, list):
+            total += st * scale * (hp["lr_post"] * rf(As) + hp["lr_pre"] * rf(Ds))
         else:
             if red != "sum":
                 return None      # per-sample signals split the batch before reducing: only the sum is a per-sample statement
-            total += sum(sig[t][b] * scale * (hp["lr_post"] * As[b] + hp["lr_pre"] * Ds[b]) for b in range(B))
+            total += sum(st[bb] * scale * (hp["lr_post"] * As[bb] + hp["lr_pre"] * Ds[bb]) for bb in range(B))
+    return total
+
+
+def subs_of(case, ent):
+    """(single-cell case, sub-entry {k, off, pairs[, ks]}) of every cell writing into this weight"""
+    return ent["subs"] if "subs" in ent else [(case, ent)]
+
+
+def segments(case):
+    """[a, b) stretches of steps between two clears (the whole history when there is none)"""
+    T = len(case["pre"])
+    cuts = sorted({ev["at"] for ev in case.get("events") or [] if ev["op"] == "clear"})
+    bounds = [0] + [c for c in cuts if 0 < c < T] + [T]
+    return list(zip(bounds[:-1], bounds[1:]))
+
+
+def oracle_entry(case, ent):
+    """expected total weight change of a weight entry, or None when the oracle has no opinion"""
+    total = 0.0
+    for (sc, sub) in subs_of(case, ent):
+        if sub.get("off") is not None:
+            # a delay between two steps: the delay-frozen mode rounds the arrival up to the next step, the delayed mode reads
+            # an exponentially interpolated trace; the property's "shifted by the delay" does not say which - not judged
+            return None
+        for (a, b) in segments(case):
+            v = oracle_seg(sc, sub["k"], sub.get("ks"), sub["pairs"], a, b)
+            if v is None:
+                return None
+            total += v
     return total
 
 
@@ -506,20 +762,37 @@ def add_opt(a, b):
     return a + b
 
 
-def model_entry(ms, T):
-    """combine the model outputs of the synapses sharing one weight: accumulator parts add up (None = absent)"""
-    accs = [[None, None] for _ in range(T)]
+def runs_of(case, ent):
+    """the model runs of a weight entry: one per (cell writing into the weight, synapse sharing it, segment)"""
+    out = []
+    for (sc, sub) in subs_of(case, ent):
+        for (pre, post) in sub["pairs"]:
+            for (a, b) in segments(case):
+                out.append({"case": sc, "k": sub["k"], "off": sub.get("off"), "ks": None if sub.get("ks") is None else sub["ks"][a:b],
+                            "pre": pre[a:b], "post": post[a:b], "a": a, "b": b})
+    return out
+
+
+def q_run(r):
+    return q_case(r["case"], r["k"], r["pre"], r["post"], r["off"], t0=r["a"], ks=r["ks"])
+
+
+def model_entry(runs, ms, T, per_step):
+    """combine the model outputs of the runs of one weight: parts add up (None = absent).  per_step: the parts handed
+    over by each trainer call (update applied after every call); otherwise the accumulator contents after each call"""
+    parts = [[None, None] for _ in range(T)]
     upd = None
-    for m in ms:
-        for t in range(T):
+    for r, m in zip(runs, ms):
+        src = m[2] if per_step else m[1]
+        for t in range(r["a"], r["b"]):
             for j in (0, 1):
-                accs[t][j] = add_opt(accs[t][j], dec_opt(m[1][t][j]))
+                parts[t][j] = add_opt(parts[t][j], dec_opt(src[t - r["a"]][j]))
         upd = add_opt(upd, dec_opt(m[3]))
-    return accs, upd
+    return parts, upd
 
 
-def compare_case(case, impl, ents, models):
-    """ents: weight entries, models: per entry the list of model results (one per synapse sharing the weight)
+def compare_case(case, impl, ents, runs, models):
+    """ents: weight entries; runs / models: per entry the model runs and their results
     -> (mismatch detail | None, oracle failure detail | None)"""
     if not impl.get("ok"):
         # the model says whether the configuration is rejected
@@ -530,11 +803,12 @@ def compare_case(case, impl, ents, models):
         d = {"impl_error": impl.get("msg"), "trace": impl.get("trace", "")[-600:]}
         return d, dict(d, what="the implementation raised on a valid configuration")
     T = len(case["pre"])
+    per_step = case.get("events") is not None
     nw = 1
     for x in impl["wshape"]:
         nw *= x
     mis = None
-    for ent, ms in zip(ents, models):
+    for ent, rs, ms in zip(ents, runs, models):
         err = next((m for m in ms if isinstance(m, Exception)), None)
         if err is not None:
             mis = {"model_error": str(err)[:800]}
@@ -543,11 +817,11 @@ def compare_case(case, impl, ents, models):
         if rej is not None:
             mis = {"model_rejects": rej, "impl": "ran"}
             break
-        accs, upd = model_entry(ms, T)
+        parts, upd = model_entry(rs, ms, T, per_step)
         idx = ent["idx"]
         for t in range(T):
             for part, j in (("pos", 0), ("neg", 1)):
-                mv = accs[t][j]
+                mv = parts[t][j]
                 raw = impl["steps"][t][part]
                 iv = pick(raw, idx)
                 if iv == "shape" or (raw is not None and len(raw) != nw):
@@ -557,12 +831,17 @@ def compare_case(case, impl, ents, models):
                     mis = {"weight": ent["label"], "step": t, "part": part, "model": mv, "impl": iv}
                 if mis:
                     break
+            if mis is None and per_step:
+                net = (parts[t][0] or 0.0) - (parts[t][1] or 0.0)
+                iw = pick(impl["steps"][t]["dw"], idx)
+                if iw == "shape" or not F.close(net, iw, rel=1e-9, ab=1e-11):
+                    mis = {"weight": ent["label"], "step": t, "part": "applied update", "model": net, "impl": iw}
             if mis:
                 break
         if mis:
             break
-        iu = pick(impl["dw"], idx)
-        if iu == "shape" or not F.close(upd if upd is not None else 0.0, iu):
+        iu = pick(impl["w_total"] if per_step else impl["dw"], idx)
+        if iu == "shape" or not F.close(upd if upd is not None else 0.0, iu, rel=1e-9, ab=1e-11):
             mis = {"weight": ent["label"], "step": "update", "model": upd, "impl": iu}
             break
     of = None
@@ -572,14 +851,16 @@ def compare_case(case, impl, ents, models):
             continue
         got = pick(impl["w_total"], ent["idx"])
         if got == "shape" or not F.close(exp, got, rel=1e-9, ab=1e-11):
-            of = {"weight": ent["label"], "delay_steps": ent["k"], "expected_pair_sum": exp, "observed_weight_change": got}
+            of = {"weight": ent["label"], "delay_steps": ent.get("ks") or ent.get("k"), "expected_pair_sum": exp,
+                  "observed_weight_change": got}
             break
     return mis, of
 
 
 def signature(case, detail):
-    return {"trainer": case["trainer"], "mode": case["mode"], "delayed": bool(case["delayed"]),
-            "has_delay": case.get("kmax") is not None}
+    d = case.get("defaults", case)
+    return {"trainer": case["trainer"], "mode": d.get("mode"), "delayed": bool(d.get("delayed")),
+            "kind": case.get("kind", "scenario" if case.get("events") is not None else "cell")}
 
 
 def run_impl_parallel(cases, jobs=8):
@@ -594,40 +875,48 @@ def run_impl_parallel(cases, jobs=8):
     return [r for part in parts for r in part]
 
 
+def units_of(c, im):
+    """(case reported on failure, single-layer case judged, implementation result) - one per connection"""
+    if c.get("kind") == "group":
+        effs = effective_cases(c)
+        ress = im["cells"] if im.get("ok") else [im] * len(effs)
+        return [(c, e, r) for e, r in zip(effs, ress)]
+    if c.get("kind") == "biclique":
+        conn_cases = biclique_connections(c)
+        ress = im["cells"] if im.get("ok") else [im] * len(conn_cases)
+        return [(c, e, r) for e, r in zip(conn_cases, ress)]
+    return [(c, c, im)]
+
+
 def evaluate(cases):
     impl = run_impl_parallel(cases)
-    # units: (case reported on failure, single-cell case with the hyperparameters in effect, implementation result)
     units = []
     for c, im in zip(cases, impl):
-        if c.get("kind") == "group":
-            effs = effective_cases(c)
-            ress = im["cells"] if im.get("ok") else [im] * len(effs)
-            units += [(c, e, r) for e, r in zip(effs, ress)]
-        else:
-            units.append((c, c, im))
+        units += units_of(c, im)
     terms, spans = [], []
     for orig, c, im in units:
         ents = entries(c, im)
         if not ents and c["conn"] != "conv":
             ents = entries(c)
-        sp = []
+        rs, sp = [], []
         for e in ents:
-            sp.append((len(terms), len(e["pairs"])))
-            terms += [q_case(c, e["k"], pre, post, e["off"]) for (pre, post) in e["pairs"]]
-        spans.append((ents, sp))
+            r = runs_of(c, e)
+            rs.append(r)
+            sp.append((len(terms), len(r)))
+            terms += [q_run(x) for x in r]
+        spans.append((ents, rs, sp))
     model = F.eval_terms(ID, HEADER, terms, shard=max(40, min(250, len(terms) // 48 + 1)))
     mismatches, oracle_fail = [], []
-    for j, ((orig, c, im), (ents, sp)) in enumerate(zip(units, spans)):
-        mis, of = compare_case(c, im, ents, [model[a:a + n] for (a, n) in sp])
+    for (orig, c, im), (ents, rs, sp) in zip(units, spans):
+        mis, of = compare_case(c, im, ents, rs, [model[a:a + n] for (a, n) in sp])
         tag = {}
         if orig is not c:
-            tag = {"cell_hyperparameters_in_effect": {k: c[k] for k in ("hp", "mode", "delayed", "reduction", "tol")},
-                   "cell_override": next(cc.get("override") for cc, e in zip(orig["cells"], effective_cases(orig))
-                                         if e["pre"] is c["pre"])}
+            tag = {"judged": {k: c[k] for k in ("hp", "mode", "delayed", "reduction", "tol", "connection", "cells_in_effect")
+                              if k in c}}
         if mis is not None:
             mismatches.append({"case": orig, "detail": dict(mis, **tag)})
         if of is not None:
-            oracle_fail.append({"case": orig, "detail": dict(of, **tag), "signature": signature(c, of)})
+            oracle_fail.append({"case": orig, "detail": dict(of, **tag), "signature": signature(orig, of)})
     return impl, mismatches, oracle_fail, len(terms)
 
 
@@ -638,13 +927,18 @@ def _flat(x):
 def flat_cells(cases):
     out = []
     for c in cases:
-        out += effective_cases(c) if c.get("kind") == "group" else [c]
+        if c.get("kind") == "group":
+            out += effective_cases(c)
+        elif c.get("kind") == "biclique":
+            out += [e for cc in biclique_connections(c) for e in cc["cells_in_effect"]]
+        else:
+            out.append(c)
     return out
 
 
 def nontrivial(case):
-    if case.get("kind") == "group":
-        return any(nontrivial(e) for e in effective_cases(case))
+    if case.get("kind") in ("group", "biclique"):
+        return any(nontrivial(e) for e in flat_cells([case]))
     T = len(case["pre"])
     npre = sum(sum(sum(r) for r in s) for s in case["pre"])
     npost = sum(sum(sum(r) for r in s) for s in case["post"])
@@ -660,12 +954,17 @@ def run(ctx):
     rng = random.Random(ctx["seed"])
     quick = ctx["tier"] == "quick"
     cases = load_corpus()
-    cases += [gen_random(rng) for _ in range(260 if quick else 4000)]
+    cases += [gen_random(rng) for _ in range(200 if quick else 4000)]
     cases += [gen_conv(rng) for _ in range(24 if quick else 400)]
     cases += [gen_malformed(rng) for _ in range(30 if quick else 300)]
     cases += [gen_offgrid(rng) for _ in range(60 if quick else 600)]
     # one trainer object, several cells registered with per-cell keyword overrides (incl. a cell without overrides)
-    cases += [gen_group(rng) for _ in range(72 if quick else 900)]
+    cases += [gen_group(rng) for _ in range(60 if quick else 900)]
+    # one trainer on a Biclique layer: cells sharing a neuron group / a connection (and its accumulator), each pair
+    # differing in exactly one register_cell keyword (rotating over all of them, 78 = one full rotation)
+    cases += [gen_biclique(rng, q) for q in range(78 if quick else 780)]
+    # operations between steps: checkpoint restored into a twin, clear(), delays re-assigned (setter / Updater)
+    cases += [gen_scenario(rng, q) for q in range(60 if quick else 900)]
     ex_len = 2 if quick else 5
     ex = exhaustive_1x1(ex_len)
     if quick:
@@ -694,7 +993,12 @@ def run(ctx):
                  "padding, delays, linear reductions) + GROUPS: one trainer object driving 2-3 cells on their own layers, the "
                  "first registered without overrides, the others with keyword overrides of rates (mostly another sign mode "
                  "than the trainer's defaults), time constants, delayed, trace_mode, batch_reduction, interp_tolerance, "
-                 "inplace; model and oracle use the hyperparameters in effect per cell + EXHAUSTIVE pre/post histories of length <= %d on 1x1 cells for every trainer x "
+                 "inplace; model and oracle use the hyperparameters in effect per cell + BICLIQUE: one trainer on a 2x2 "
+                 "Biclique layer, all four cells registered, cells sharing a neuron group / a connection (and its "
+                 "accumulator) differing in exactly one register_cell keyword rotating over all of them + SCENARIOS: update "
+                 "applied after every call, a checkpoint (layer + trainer state_dict) restored into a twin that ran on other "
+                 "data, trainer.clear()+layer.clear(), delays re-assigned through the setter / the Updater between steps "
+                 "(oracle: presynaptic times shifted by the delay in force at each step) + EXHAUSTIVE pre/post histories of length <= %d on 1x1 cells for every trainer x "
                  "sign mode x trace mode%s; non-trivial = >= 2 steps with at least one pre and one post spike; distinct by "
                  "full case text" % (ex_len, " (+ all length-3 histories for STDP, length <= 2 with a delay)" if quick
                                      else " (+ length <= 4 with a delay in both trainer modes)")),
@@ -707,6 +1011,10 @@ def run(ctx):
         "mode_distribution": dict(Counter(c["mode"] for c in cells)),
         "delay_distribution": dict(Counter(("none" if c["kmax"] is None else "k<=%d" % c["kmax"]) + ("/delayed" if c["delayed"] else "/frozen") for c in cells)),
         "offgrid_delay_cases": sum(1 for c in cells if c.get("delays") is not None and any(float(x) != int(x) for x in _flat(c["delays"]))),
+        "biclique_cases": sum(1 for c in cases if c.get("kind") == "biclique"),
+        "biclique_differing_keys": dict(Counter(k for c in cases if c.get("kind") == "biclique" for k in c["differs"].values())),
+        "scenario_cases": dict(Counter(c["scenario"] for c in cases if c.get("scenario"))),
+        "scenario_events": dict(Counter(ev["op"] for c in cases for ev in (c.get("events") or []))),
         "group_cases": len(groups), "group_cells": sum(len(g["cells"]) for g in groups),
         "group_cells_with_overrides": sum(1 for g in groups for cc in g["cells"] if cc.get("override")),
         "group_cells_sign_mode_differs_from_default": sum(
@@ -738,6 +1046,32 @@ def minimise(case):
     best, detail = case, bad(case)
     if detail is None:
         return case, None
+    changed = True
+    while changed and best.get("kind") == "biclique":
+        changed = False
+        if len(best["posts"][0]) > 1:
+            c = dict(best, conns=[dict(cs, pre=cs["pre"][:-1]) for cs in best["conns"]], posts=[p[:-1] for p in best["posts"]],
+                     signal=None if best.get("signal") is None else best["signal"][:-1])
+            d = bad(c)
+            if d is not None:
+                best, detail, changed = c, d, True
+    if best.get("kind") == "biclique":
+        return best, detail
+    changed = True
+    while changed and best.get("events") is not None:
+        changed = False
+        cands = [dict(best, events=best["events"][:j] + best["events"][j + 1:]) for j in range(len(best["events"]))]
+        T = len(best["pre"])
+        if T > 1 and all(ev["at"] < T - 1 for ev in best["events"]):
+            cands.append(dict(best, pre=best["pre"][:-1], post=best["post"][:-1],
+                              signal=None if best.get("signal") is None else best["signal"][:-1]))
+        for c in cands:
+            d = bad(c)
+            if d is not None:
+                best, detail, changed = c, d, True
+                break
+    if best.get("events") is not None:
+        return best, detail
     changed = True
     while changed and best.get("kind") == "group":
         changed = False
